@@ -427,7 +427,16 @@ impl EvalResult {
     }
 
     pub fn is_truthy(&self) -> Option<bool> {
-        self.as_value().and_then(SparqlValue::is_truthy)
+        match (self.as_value(), self) {
+            (Some(value), _) => value.is_truthy(),
+            // the EBV of a numeric literal with an invalid lexical form is false
+            // (see https://www.w3.org/TR/sparql11-query/#ebv)
+            (None, EvalResult::Term(t)) => t
+                .datatype()
+                .filter(|dt| SparqlValue::is_numeric_datatype(dt.as_str()))
+                .map(|_| false),
+            (None, EvalResult::Value(_)) => None,
+        }
     }
 
     pub fn sparql_eq(&self, other: &Self) -> Option<bool> {
